@@ -915,3 +915,7 @@ def run(ctx):
     _run_main2(ctx)
     extras2(ctx, Impl(ctx))
     ctx.flush()
+
+
+# evidence: how the model is tied to the source on every run (as built, supersedes the value above)
+TIE = 'translator through Props/C01Gen (the model of the laws is the regenerated loop) + correspondence (small exhaustive space through the Float twin) + relations evaluated impl-vs-impl'
